@@ -86,9 +86,9 @@ def buildRoutes (p : PProject) : Option (List SRoute) :=
 def checkLine (c : Check) : String := "auth " ++ c.scheme ++ "[" ++ " ".intercalate c.scopes ++ "]"
 
 /-- (status class, log) a response must show for an outcome -/
-def expectedView : Outcome → String × List String
+def expectedView (denyStatus : String) : Outcome → String × List String
   | .notServed => ("not-served", [])
-  | .refused asked => ("403", asked.map checkLine)
+  | .refused asked => (denyStatus, asked.map checkLine)
   | .invalid asked => ("422", asked.map checkLine)
   | .called asked op args st => (toString st, asked.map checkLine ++ ["call " ++ op ++ "(" ++ ",".intercalate args ++ ")"])
 
@@ -100,9 +100,9 @@ def outcomeJson (v : String × List String) : Json := Json.mkObj [("status", v.1
 def isAuthLine (s : String) : Bool := s.startsWith "auth "
 
 /-- which aspect differs: route dispatch, the authorization gate, or parameter binding -/
-def diffClass (want got : String × List String) : String :=
+def diffClass (denyStatus : String) (want got : String × List String) : String :=
   if (want.1 = "not-served") != (got.1 = "not-served") then "served"
-  else if want.2.filter isAuthLine ≠ got.2.filter isAuthLine || (want.1 = "403") != (got.1 = "403") then "auth"
+  else if want.2.filter isAuthLine ≠ got.2.filter isAuthLine || (want.1 = denyStatus) != (got.1 = denyStatus) then "auth"
   else "binding"
 
 def checkRig (prop : String) (input : Json) (impl : Json) : PropOut := Id.run do
@@ -160,7 +160,9 @@ def checkRig (prop : String) (input : Json) (impl : Json) : PropOut := Id.run do
       let id := (jnat rq "id").toOption.getD 0
       let kind := jstrD rq "kind"
       let r := parseReq rq
-      let want0 := expectedView (serve enums routes r)
+      -- the status the authorization callback refuses with (the rig's callback takes it from the request)
+      let denyStatus := toString (match (jnat rq "denyStatus").toOption with | some n => if n = 0 then 403 else n | none => 403)
+      let want0 := expectedView denyStatus (serve enums routes r)
       -- routesConfig.validateResponsePayload: a declared struct result is validated before it is sent; the rig's
       -- controllers return zero values, and `Item.Name` is required, so such a route answers 500 AFTER the call
       let validateResp := jboolD ((input.getObjVal? "project").toOption.bind (·.getObjVal? "config" |>.toOption) |>.getD Json.null) "validateResponsePayload"
@@ -190,7 +192,7 @@ def checkRig (prop : String) (input : Json) (impl : Json) : PropOut := Id.run do
           let got : String × List String := (statusClass ((x.getObjVal? "status").toOption.bind (·.getInt?.toOption) |>.getD 0), strList x "log")
           views := views ++ [(e, got)]
           if got ≠ want then
-            let cls := diffClass want got
+            let cls := diffClass denyStatus want got
             -- C12-F1: percent-encoded PATH values reach the controller undecoded on fiber (always) and on
             -- chi / echo (when the encoding is not the canonical one)
             let fid := if encodedPath && cls = "binding" && (e = "fiber" || e = "chi" || e = "echo") && got.1 = want.1 then "C12-F1:"
